@@ -237,6 +237,14 @@ func (k *c06Checker) infer(t *aspenkit.ClusterTrace, cp *aspenkit.Checkpoint, ks
 			return "restart-recovery-skips-op-below-local-high-water", diag
 		}
 		if whileDown {
+			// the recovery request covered the missing version. If a peer still held the
+			// older operation the restarted node ended up with, the node pulled both and
+			// kept the older one; otherwise it never got the newer one.
+			for i, up := range cp.Up {
+				if up && i != stale && ns.HasDigest && cp.State[i][ks.Name] == ns {
+					return "recovery-applies-older-op-over-newer", diag
+				}
+			}
 			return "restart-recovery-misses-op-at-or-above-high-water", diag
 		}
 	}
